@@ -12,7 +12,7 @@ RULE = ("2 (quick) / 2-3 (thorough) real threads, each running one of 5 programs
         "programs in thorough); ALL interleavings with <= c preemptions under a baton scheduler: coarse scheduling points = "
         "every callback from asynq into harness code (task step begin/end, flush body, get_priority, context pause/resume, "
         "flush events, item construction, deduplicated call), both builds; fine points = every executed line of asynq's own "
-        "Python code (sys.settrace, pure build). Oracle: each thread's digest (outcome, harness flush log with item ids, "
+        "Python code (sys.settrace, pure build); thorough adds 2 preemptions over the lines of the functions that touch per-thread state. Oracle: each thread's digest (outcome, harness flush log with item ids, "
         "DebugBatch flush log, context events, probes, step counts, deduplicate body runs, profiler buffer entries, monitor "
         "alarms) equals the digest of the same program run alone, plus direct checks: get_scheduler() is this thread's, "
         "get_active_task() is the running task, no batch contains another thread's item, no deduplicated call returns another "
@@ -57,9 +57,14 @@ OPTIONS = {"COLLECT_PERF_STATS": True}
 CATS = ["thread-interference", "deadlock", "hang", "worker-died"]
 
 BOUNDS = {  # (coarse preemptions, fine preemptions, slices)
-    "quick": {"coarse2": 2, "fine2": 1, "coarse3": None, "slices": 4},
-    "thorough": {"coarse2": 3, "fine2": 2, "coarse3": 2, "slices": 16},
+    "quick": {"coarse2": 2, "fine2": 1, "hot2": None, "coarse3": None, "slices": 4},
+    "thorough": {"coarse2": 3, "fine2": 1, "hot2": 2, "coarse3": 2, "slices": 16},
 }
+# "hot" line-level points: only the code that touches state which must be per thread (2 preemptions are affordable there)
+HOT = {"tools.py": {"cache_key", "asynq", "dirty", "callback"}, "profiler.py": None,
+       "batching.py": {"__init__", "_try_switch_active_batch", "sync"},
+       "scheduler.py": {"__init__", "reset", "get_scheduler", "get_active_task"},
+       "async_task.py": {"__init__"}}
 
 
 def jobs(tier, seed):
@@ -72,6 +77,10 @@ def jobs(tier, seed):
     for x, y in pairs:
         for s in range(m):
             yield {"progs": [x, y], "mode": "fine", "bound": b["fine2"], "slice": [s, m], "only": "pure"}
+    if b["hot2"] is not None:
+        for x, y in pairs:
+            for s in range(m):
+                yield {"progs": [x, y], "mode": "hot", "bound": b["hot2"], "slice": [s, m], "only": "pure"}
     if b["coarse3"] is not None:
         trips = [(x, y, z) for i, x in enumerate(NAMES) for j, y in enumerate(NAMES) if j > i for z in NAMES[j + 1:]]
         for t in trips:
@@ -80,6 +89,17 @@ def jobs(tier, seed):
 
 
 _solo = {}
+
+
+def _fine_spec(mode):
+    import os
+    import asynq
+    d = os.path.dirname(os.path.realpath(asynq.__file__)) + os.sep
+    if mode == "fine":
+        return [d]
+    if mode == "hot":
+        return [(d, HOT)]
+    return None
 
 
 def worker_init(env):
@@ -128,9 +148,7 @@ def run(job, env):
     if any(s["viol"] for s in solos):
         out["violations"].append({"sig": "harness", "msg": "solo run raises monitor alarms: %r" % (solos,), "features": [], "case": job})
         return out
-    fine = None
-    if job["mode"] == "fine":
-        fine = [os.path.dirname(os.path.realpath(asynq.__file__)) + os.sep]
+    fine = _fine_spec(job["mode"])
     hb = env["hb"]
     cnt = out["counters"]
 
@@ -197,7 +215,7 @@ def replay(case, env):
     names = job["progs"]
     progs = [P.compile_prog(PROGRAMS[n]) for n in names]
     solos = [_solo_digest(n) for n in names]
-    fine = [os.path.dirname(os.path.realpath(asynq.__file__)) + os.sep] if job["mode"] == "fine" else None
+    fine = _fine_spec(job["mode"])
     vs = []
     for rep in range(2):
         _setup_globals()
